@@ -210,30 +210,62 @@ Proof.
   intros Hn. destruct (b1 en tr) eqn:E; (rewrite H; rewrite E; [|try exact I]); cbn in *; auto.
 Qed.
 
-Lemma strict_is_wrapping w fuel :
-  (forall s en tr, not_ovf (exec All w fuel s en tr) -> exec Wrap w fuel s en tr = exec All w fuel s en tr) /\
-  (forall ss en tr, not_ovf (exec_block All w fuel ss en tr) ->
-                    exec_block Wrap w fuel ss en tr = exec_block All w fuel ss en tr).
+(* m checks fewer operations than m' *)
+Definition mode_le (m m' : mode) : Prop := forall op, chk m op = true -> chk m' op = true.
+Lemma mode_le_Wrap m : mode_le Wrap m. Proof. intros op H. discriminate. Qed.
+Lemma mode_le_All m : mode_le m All. Proof. intros op _. reflexivity. Qed.
+Lemma mode_le_refl m : mode_le m m. Proof. intros op H. exact H. Qed.
+
+Lemma mode_weaken m m' w fuel : mode_le m m' ->
+  (forall s en tr, not_ovf (exec m' w fuel s en tr) -> exec m w fuel s en tr = exec m' w fuel s en tr) /\
+  (forall ss en tr, not_ovf (exec_block m' w fuel ss en tr) ->
+                    exec_block m w fuel ss en tr = exec_block m' w fuel ss en tr).
 Proof.
-  apply stmt_stmts_ind2; try (intros; reflexivity).
-  - intros x op e1 e2 en tr. cbn. destruct (ovf op _ _); cbn; [tauto | reflexivity].
+  intros Hle. apply stmt_stmts_ind2; try (intros; reflexivity).
+  - intros x op e1 e2 en tr. cbn. destruct (chk m' op && ovf op _ _) eqn:E'; cbn; [tauto|]. intros _.
+    destruct (chk m op) eqn:Em; cbn; [|reflexivity]. rewrite (Hle op Em) in E'. cbn in E'. now rewrite E'.
   - intros c s1 s2 fas H1 H2 en tr. rewrite !exec_SIf. destruct (cond _) as [[|]|]; auto.
-    + intros Hn. rewrite H1; [reflexivity|]. destruct (exec_block All w fuel s1 en tr); cbn in *; auto.
-    + intros Hn. rewrite H2; [reflexivity|]. destruct (exec_block All w fuel s2 en tr); cbn in *; auto.
+    + intros Hn. rewrite H1; [reflexivity|]. destruct (exec_block m' w fuel s1 en tr); cbn in *; auto.
+    + intros Hn. rewrite H2; [reflexivity|]. destruct (exec_block m' w fuel s2 en tr); cbn in *; auto.
   - intros c inv ss H en tr. rewrite !exec_SSIf. destruct (cond _) as [b|]; auto. destruct (xorb b inv); auto.
   - intros lvs ss bc H en tr. rewrite !exec_SWhile. intros Hn.
-    rewrite (loop_ext (exec_block All w fuel ss) (exec_block Wrap w fuel ss)); auto.
-    destruct (loop (exec_block All w fuel ss) _ _ _ _); cbn in *; auto.
+    rewrite (loop_ext (exec_block m' w fuel ss) (exec_block m w fuel ss)); auto.
+    destruct (loop (exec_block m' w fuel ss) _ _ _ _); cbn in *; auto.
   - intros s r Hs Hr en tr. rewrite !exec_block_cons. intros Hn.
-    rewrite Hs by (destruct (exec All w fuel s en tr); cbn in *; auto).
-    destruct (exec All w fuel s en tr); auto.
+    rewrite Hs by (destruct (exec m' w fuel s en tr); cbn in *; auto).
+    destruct (exec m' w fuel s en tr); auto.
+Qed.
+
+(* a run that is Done while checking more operations is the same run when fewer are checked *)
+Theorem sem_weaken m m' w f args fuel v tr :
+  mode_le m m' -> sem m' w f args fuel = Done v tr -> sem m w f args fuel = Done v tr.
+Proof.
+  unfold sem. intros Hle H. destruct (mode_weaken m m' w fuel Hle) as [_ Hb].
+  rewrite Hb; [exact H|]. destruct (exec_block m' w fuel (f_body f) _ _); cbn; auto; discriminate.
 Qed.
 
 Theorem strict_done_wrapping w f args fuel v tr :
   sem All w f args fuel = Done v tr -> sem Wrap w f args fuel = Done v tr.
+Proof. apply sem_weaken, mode_le_Wrap. Qed.
+
+(* the wrapping semantics never reports an overflow *)
+Lemma wrap_not_ovf w fuel :
+  (forall s en tr, not_ovf (exec Wrap w fuel s en tr)) /\ (forall ss en tr, not_ovf (exec_block Wrap w fuel ss en tr)).
 Proof.
-  unfold sem. intros H. destruct (strict_is_wrapping w fuel) as [_ Hb].
-  rewrite Hb; [exact H|]. destruct (exec_block All w fuel (f_body f) _ _); cbn; auto; discriminate.
+  apply stmt_stmts_ind2; try (intros; exact I).
+  - intros x op e1 e2 en tr. cbn. destruct (rt_binop op _ _); exact I.
+  - intros f args ret en tr. cbn. destruct (w_call w tr f _); exact I.
+  - intros c s1 s2 fas H1 H2 en tr. rewrite exec_SIf. destruct (cond _) as [[|]|]; [| |exact I].
+    + specialize (H1 en tr). destruct (exec_block Wrap w fuel s1 en tr); auto.
+    + specialize (H2 en tr). destruct (exec_block Wrap w fuel s2 en tr); auto.
+  - intros c inv ss H en tr. rewrite exec_SSIf. destruct (cond _) as [b|]; [|exact I]. destruct (xorb b inv); [apply H | exact I].
+  - intros lvs ss bc H en tr. rewrite exec_SWhile.
+    assert (L : forall n e t, not_ovf (loop (exec_block Wrap w fuel ss) (bind_e2 w lvs) n e t)).
+    { induction n as [|n IH]; intros e t; cbn; [exact I|]. specialize (H e t).
+      destruct (exec_block Wrap w fuel ss e t); auto. }
+    specialize (L fuel (bind_e1 w lvs en) tr). destruct (loop _ _ _ _ _); auto.
+  - intros s r Hs Hr en tr. rewrite exec_block_cons. specialize (Hs en tr).
+    destruct (exec Wrap w fuel s en tr); auto.
 Qed.
 
 (* ---- invariance under injective renaming of variables (DESIGN C02 item 9) ---- *)
